@@ -8,9 +8,11 @@ import Ovsdb.Model.Basic
   dereferenced; a nil pointer is its own value) — `[a]` or `[]`; a multi-column
   value is the tuple of the non-nil components (the Go code gob-encodes the
   non-nil components in order; gob is assumed injective on such tuples).
-  Columns usable in an index are scalar, optional, or a map with a key (a
-  slice or map used directly as a Go map key would panic; such index
-  configurations are outside the model and never generated).
+  A set or map column used whole in an index contributes one canonical string
+  (the repair of defect D67: a slice or map used directly as a Go map key
+  panicked). The exactness theorems (C05, C08) keep their hypothesis that
+  keyless index columns are scalar or optional: for whole sets and maps the
+  model is executable and compared with the code, not proved.
 -/
 namespace Ovsdb
 open AMap
@@ -29,11 +31,27 @@ structure Spec where
   isSchema : Bool
   deriving DecidableEq, Repr
 
+/-- an injective rendering of an atom (what `%#v` is to the Go code: only its injectivity matters) -/
+def atomKey : Atom → String
+  | .int i => "i" ++ toString i
+  | .real r => "r" ++ toString r.num ++ "/" ++ toString r.den
+  | .bool b => if b then "bt" else "bf"
+  | .str s => "s" ++ toString s.length ++ ":" ++ s
+  | .uuid u => "u" ++ toString u.length ++ ":" ++ u
+
+/-- `canonicalIndexValue` (as repaired, defect D67): the value of a set or map column used whole in an
+    index is one string that equal sets / equal maps share: the renderings of the elements, sorted,
+    each once -/
+def canonStrings (l : List String) : Atom :=
+  .str ("{" ++ String.intercalate ", " ((l.eraseDups).mergeSort (fun a b => decide (a ≤ b))) ++ "}")
+
 def valueFromColumnKey (row : Row) (ck : ColumnKey) : Option Atom :=
   match get? row ck.col, ck.key with
   | some (.atom a), none => some a
   | some (.opt o), none => o
   | some (.map m), some k => some ((get? m k).getD ck.zero)
+  | some (.set l), none => some (canonStrings (l.map atomKey))
+  | some (.map m), none => some (canonStrings ((keys m).eraseDups.map (fun k => atomKey k ++ "=" ++ ((get? m k).map atomKey).getD "")))
   | _, _ => none
 
 def idxVal (spec : Spec) (row : Row) : IdxVal :=
